@@ -570,6 +570,12 @@ func runSessionLife(c *Ctx) {
 				return "not-expired", false, true
 			}
 			return "", false, false
+		}}, {Cond: func(f *FuncInfo, e ast.Expr) (string, bool, bool) {
+			// a session without a lifetime cannot be expired: X.ExpiresAt.IsZero() true
+			if call, ok := ast.Unparen(e).(*ast.CallExpr); ok && calleeIs(f.Info(), call, "time", "Time.IsZero") && strings.Contains(types.ExprString(call), "ExpiresAt") {
+				return "not-expired", true, true
+			}
+			return "", false, false
 		}}}}
 		n := 0
 		for _, b := range g.CFG().Blocks {
